@@ -11,6 +11,7 @@
     join <a> <b>                           → hex               os.path.join
     normpath <p>                           → hex
     dumps <json>                           → hex               json.dumps(v, separators=(',', ':'))
+    loadsm <text>                          → ok <hex of dumps(value)> | ValueError     the model's json.loads (`loadsCodec`)
     header <appver> <module json> <transpiler json> <version json | ->   → hex of to_header_str()
     parse <appver> <content>               → none | <Err> slice=<hex> | ok slice=<hex> json=<hex of to_json()>
     eq <appver> <m1> <t1> <v1> <m2> <t2> <v2>   → True | False      (identity comparison)
@@ -37,6 +38,7 @@
 -/
 import Tranp.Driver.Common
 import Tranp.Model.Runner
+import Tranp.Model.RunnerLoads
 
 namespace Tranp.Driver.Runner
 open Tranp Tranp.Runner Tranp.Driver
@@ -283,6 +285,11 @@ def step (st : St) : List String → St × String
     match spec? j with
     | some v => (st, Str.hex (dumps v))
     | none => (st, "bad-op")
+  | ["loadsm", text] =>
+    -- the MODEL's json.loads (Model/RunnerLoads.lean: `loadsCodec`, the decoder `C06.header_rt_codec` is proved for)
+    match loadsCodec (unhexD text) with
+    | .ok v => (st, s!"ok {Str.hex (dumps v)}")
+    | .error e => (st, e.toString)
   | ["header", av, m, t, v] =>
     match spec? m, spec? t, (if v == "-" then some none else (spec? v).map some) with
     | some m, some t, some v => (st, Str.hex (Header.make (unhexD av) m t v).toHeaderStr)
